@@ -15,6 +15,7 @@ import numpy as np
 
 from mon import cmp, core, gen, mw
 from mon.props import _efc as E
+from mon.props import _xtree as X
 
 ID = "C22"
 LEVEL = "exploration"
@@ -60,7 +61,14 @@ NJMAX = (64, 192, 448)
 
 def cases(tier, seed):
   n = 72 if tier == "quick" else 1500
-  return [{"id": f"gen{seed}_{i}", "seed": seed * 100000 + i, "metamorphic": int(i % 2 == 0), "big": 36 if i % 23 == 5 else 0, "weight": 3 if i % 23 == 5 else 1} for i in range(n)]
+  out = []
+  for i in range(n):
+    out.append({"id": f"gen{seed}_{i}", "seed": seed * 100000 + i, "metamorphic": int(i % 2 == 0), "big": 36 if i % 23 == 5 else 0, "weight": 3 if i % 23 == 5 else 1})
+    if i % 3 == 0:
+      # cross-tree wrapping family (mon/props/_xtree.py): one case after every third generated one
+      k = i // 3
+      out.append({"id": f"xtree{seed}_{k}", "family": "xtree", "seed": seed * 100000 + 50000 + k, "metamorphic": int(k % 2 == 0), "big": 0, "weight": 1})
+  return out
 
 
 def dense_tenJ(mjm, vals):
@@ -134,11 +142,15 @@ def run_case(case):
 
   rec = core.Rec(case)
   rng = np.random.default_rng(case["seed"] + 31)
-  P = dict(PROFILE)
-  if case["big"]:
-    P["big_tree"] = case["big"]
-    P["nbody"] = (2, 4)
-  xml, mjm, feat, _ = gen.make_model(case["seed"], P)
+  xtree = case.get("family") == "xtree"
+  if xtree:
+    xml, mjm, feat = X.make_model(case["seed"])
+  else:
+    P = dict(PROFILE)
+    if case["big"]:
+      P["big_tree"] = case["big"]
+      P["nbody"] = (2, 4)
+    xml, mjm, feat, _ = gen.make_model(case["seed"], P)
   if mjm is None:
     rec.rejected = "mujoco compile"
     return rec.result()
@@ -150,6 +162,10 @@ def run_case(case):
     return rec.result()
   nworld = 3
   states = [gen.sample_state(mjm, rng, vel=float(rng.choice([0.3, 1.0, 3.0])), quat_scale=False) for _ in range(nworld)]
+  if xtree:
+    # two worlds near qpos0 (the tendons wrap their geoms there by construction), the third anywhere
+    for w, spread in enumerate((0.05, float(rng.choice([0.15, 0.3])))):
+      states[w]["qpos"] = X.near_qpos(mjm, rng, spread)
   need = 0
   try:
     for st in states:
@@ -274,7 +290,21 @@ def run_case(case):
       # (c) tendon / actuator Jacobians
       if mjm.ntendon:
         tj = dense_tenJ(mjm, tenJ[w])
-        cmp.judge(rec, "ten_J", tj, ref["ten_J"], A_JAC, noise["ten_J"], ctx=f"world {w}")
+        verdict = cmp.judge(rec, "ten_J", tj, ref["ten_J"], A_JAC, noise["ten_J"], ctx=f"world {w}")
+        if verdict != "incon":
+          # which wrapping configurations this comparison actually observed (MuJoCo's wrap_obj at this state)
+          for c in X.classify(mjm, mjd):
+            if not c["wrapped"]:
+              rec.cover("wrap_geom_not_wrapping_in_state", 1)
+              continue
+            rec.cover(f"wrapped:{c['type']}:{'sidesite' if c['sidesite'] else 'no_sidesite'}", 1)
+            where = "world_body" if c["geom_on_world"] else ("body_with_rotational_dofs" if c["rot"] else "body_without_rotational_dofs")
+            rec.cover("wrapped_geom_on:" + where, 1)
+            if c["rot"]:
+              for side in ("next", "prev"):
+                rec.cover(f"wrapped_geom_on_rotating_body:{side}_site_in_{'other' if c[side + '_other_tree'] else 'same'}_tree", 1)
+            if c["pulley_scaled"]:
+              rec.cover("wrapped_geom_in_pulley_scaled_branch", 1)
         pred = tj @ v
         for t in range(mjm.ntendon):
           scale = max(1.0, abs(f1[2][t]))
